@@ -91,6 +91,11 @@ type CKKSCase struct {
 	PBPowers    []int          `json:"pbPowers"`
 	Lazy        bool           `json:"lazy"`
 	MixedParity bool           `json:"mixedParity"`
+	Sparse      bool           `json:"sparse"`   // sparse packing with 2^LogSlots slots
+	LogSlots    int            `json:"logSlots"`
+	Degree2     int            `json:"degree2"`  // > 0: a second polynomial evaluated afterwards with the SAME evaluator and input object
+	Coeffs2     [][][2]float64 `json:"coeffs2"`
+	Target2Rel  float64        `json:"target2Rel"`
 }
 
 func (c CKKSCase) RandSeed() uint64 { return c.Seed }
@@ -325,6 +330,9 @@ func runCKKS(c CKKSCase, rec *h.Rec) error {
 		return h.Failf("C13:ckks:params", "parameters rejected: %v", err)
 	}
 	slots := params.MaxSlots()
+	if c.Sparse {
+		slots = 1 << c.LogSlots
+	}
 	npoly := len(c.Coeffs)
 	depth := advertisedDepth(c.Degree)
 	lcpr := params.LevelsConsumedPerRescaling()
@@ -349,59 +357,78 @@ func runCKKS(c CKKSCase, rec *h.Rec) error {
 	dec := rlwe.NewDecryptor(params, sk)
 
 	// polynomials
-	polys := make([]bignum.Polynomial, npoly)
-	refCoeffs := make([][]bc, npoly)
-	S := 0.0 // error amplification: sum |c_k| * w_k
-	for i := range polys {
-		cs := make([]complex128, len(c.Coeffs[i]))
-		refCoeffs[i] = make([]bc, len(cs))
-		si := 0.0
-		for k, v := range c.Coeffs[i] {
-			cs[k] = complex(v[0], v[1])
-			refCoeffs[i][k] = bcNew(v[0], v[1])
-			w := math.Max(1, float64(k))
+	mkPolys := func(coeffs [][][2]float64, flagged bool) (polys []bignum.Polynomial, refCoeffs [][]bc, S float64) {
+		polys = make([]bignum.Polynomial, npoly)
+		refCoeffs = make([][]bc, npoly)
+		for i := range polys {
+			cs := make([]complex128, len(coeffs[i]))
+			refCoeffs[i] = make([]bc, len(cs))
+			si := 0.0
+			for k, v := range coeffs[i] {
+				cs[k] = complex(v[0], v[1])
+				refCoeffs[i][k] = bcNew(v[0], v[1])
+				w := math.Max(1, float64(k))
+				if c.Cheb {
+					w = math.Max(1, float64(k*k))
+				}
+				si += math.Hypot(v[0], v[1]) * w
+			}
+			S = math.Max(S, si) // error amplification: sum |c_k| * w_k
+			var iv interface{}
 			if c.Cheb {
-				w = math.Max(1, float64(k*k))
+				iv = &bignum.Interval{A: *bf(c.Intervals[i][0]), B: *bf(c.Intervals[i][1])}
 			}
-			si += math.Hypot(v[0], v[1]) * w
-		}
-		S = math.Max(S, si)
-		var iv interface{}
-		if c.Cheb {
-			iv = &bignum.Interval{A: *bf(c.Intervals[i][0]), B: *bf(c.Intervals[i][1])}
-		}
-		if lcpr == 2 {
-			// 128-bit precision mode: coefficients are handed over as arbitrary-precision numbers (as lattigo's own
-			// PREC128 tests do); float64/complex128 coefficients are stored with 53 bits and the Chebyshev
-			// factorisation (c_j - c_i) would round at 2^-53.
-			hp := make([]*bignum.Complex, len(cs))
-			for k, v := range cs {
-				hp[k] = &bignum.Complex{bf(real(v)), bf(imag(v))}
+			if lcpr == 2 {
+				// 128-bit precision mode: coefficients are handed over as arbitrary-precision numbers (as lattigo's own
+				// PREC128 tests do); float64/complex128 coefficients are stored with 53 bits and the Chebyshev
+				// factorisation (c_j - c_i) would round at 2^-53.
+				hp := make([]*bignum.Complex, len(cs))
+				for k, v := range cs {
+					hp[k] = &bignum.Complex{bf(real(v)), bf(imag(v))}
+				}
+				polys[i] = bignum.NewPolynomial(basis, hp, iv)
+			} else {
+				polys[i] = bignum.NewPolynomial(basis, cs, iv)
 			}
-			polys[i] = bignum.NewPolynomial(basis, hp, iv)
-		} else {
-			polys[i] = bignum.NewPolynomial(basis, cs, iv)
+			if flagged {
+				setParity(&polys[i], c.Shapes[i].Parity)
+			}
 		}
-		setParity(&polys[i], c.Shapes[i].Parity)
+		return
 	}
-
-	var pol interface{}
-	var pv ckkspoly.PolynomialVector
-	switch c.Kind {
-	case "bignum":
-		pol = polys[0]
-	case "poly":
-		p := ckkspoly.NewPolynomial(polys[0])
-		p.Lazy = c.Lazy
-		pol = p
-	default:
-		if pv, err = ckkspoly.NewPolynomialVector(polys, ownersToMapping(c.Owners, npoly)); err != nil {
-			return h.Failf("C13:ckks:NewPolynomialVector", "%v", err)
+	mkPol := func(polys []bignum.Polynomial) (interface{}, ckkspoly.PolynomialVector, error) {
+		switch c.Kind {
+		case "bignum":
+			return polys[0], ckkspoly.PolynomialVector{}, nil
+		case "poly":
+			p := ckkspoly.NewPolynomial(polys[0])
+			p.Lazy = c.Lazy
+			return p, ckkspoly.PolynomialVector{}, nil
+		}
+		pv, err := ckkspoly.NewPolynomialVector(polys, ownersToMapping(c.Owners, npoly))
+		if err != nil {
+			return nil, pv, h.Failf("C13:ckks:NewPolynomialVector", "%v", err)
 		}
 		for i := range pv.Value {
 			pv.Value[i].Lazy = c.Lazy
 		}
-		pol = pv
+		return pv, pv, nil
+	}
+	polys, refCoeffs, S := mkPolys(c.Coeffs, true)
+	pol, pv, err := mkPol(polys)
+	if err != nil {
+		return err
+	}
+	if c.Kind == "vector" && npoly >= 2 && c.Degree >= 2 {
+		// polynomials of different degrees are documented to be refused ("polynomial degree must all be the same")
+		short := append([]bignum.Polynomial(nil), polys...)
+		short[npoly-1].Coeffs = short[npoly-1].Coeffs[:c.Degree]
+		_, e, pm := guarded(func() (ckkspoly.PolynomialVector, error) {
+			return ckkspoly.NewPolynomialVector(short, ownersToMapping(c.Owners, npoly))
+		})
+		if e == nil || pm != "" {
+			return h.Failf("C13:ckks:NewPolynomialVector:unequal-degrees", "degrees %d and %d accepted (err %v) %s", c.Degree, c.Degree-1, e, pm)
+		}
 	}
 
 	// inputs, mapped by the documented change of basis (values handed out by lattigo's ChangeOfBasis, cross-checked)
@@ -464,6 +491,9 @@ func runCKKS(c CKKSCase, rec *h.Rec) error {
 	}
 	pt := ckks.NewPlaintext(params, c.Level)
 	pt.Scale = inScale
+	if c.Sparse {
+		pt.LogDimensions.Cols = c.LogSlots
+	}
 	if err = ecd.Encode(encVals, pt); err != nil {
 		return h.Failf("C13:ckks:encode", "%v", err)
 	}
@@ -475,8 +505,10 @@ func runCKKS(c CKKSCase, rec *h.Rec) error {
 	polyEval := ckkspoly.NewEvaluator(params, eval)
 	var out *rlwe.Ciphertext
 	var pmsg string
+	var pb cpoly.PowerBasis
+	ctBefore := ctHash(ct)
 	if c.FromPB {
-		pb := cpoly.NewPowerBasis(ct, basis)
+		pb = cpoly.NewPowerBasis(ct, basis)
 		for _, n := range c.PBPowers {
 			if err = pb.GenPower(n, false, eval); err != nil {
 				if c.Short {
@@ -540,86 +572,135 @@ func runCKKS(c CKKSCase, rec *h.Rec) error {
 	if err != nil {
 		return h.Failf("C13:ckks:Evaluate:error", "degree %d at level %d (depth %d x %d): %v", c.Degree, c.Level, depth, lcpr, err)
 	}
-	if want := c.Level - depth*lcpr; out.Level() != want {
-		return h.Failf("C13:ckks:level", "degree %d: input level %d, output level %d, want %d", c.Degree, c.Level, out.Level(), want)
-	}
-	if out.Scale.Cmp(target) == 0 {
-		rec.Class("scale-exact")
-	} else {
-		rec.Class("scale-within-2^-100")
-		if out.Scale.Log2Delta(target) < 100 {
-			return h.Failf("C13:ckks:scale", "output scale %v != target scale %v", &out.Scale.Value, &target.Value)
-		}
-	}
-	if out.Degree() != 1 {
-		return h.Failf("C13:ckks:degree", "output ciphertext degree %d", out.Degree())
-	}
-
-	got := make([]*bignum.Complex, slots)
-	for i := range got {
-		got[i] = bignum.NewComplex()
-	}
-	if err = ecd.Decode(dec.DecryptNew(out), got); err != nil {
-		return h.Failf("C13:ckks:decode", "%v", err)
-	}
-
 	// tolerance (see assumptions.txt)
-	rels := []float64{1, c.InScaleRel, c.TargetRel}
-	minRel := 1.0
-	for _, r := range rels {
-		minRel = math.Min(minRel, r)
+	tolFor := func(S float64, targetRel float64) float64 {
+		minRel := 1.0
+		for _, r := range []float64{1, c.InScaleRel, targetRel} {
+			minRel = math.Min(minRel, r)
+		}
+		logDeltaMin := float64(c.Params.LogScale) + math.Log2(minRel*0.7)
+		epsUnit := math.Ldexp(float64(params.N()), 12) * math.Exp2(-logDeltaMin)
+		return epsUnit * (1 + S)
 	}
-	logDeltaMin := float64(c.Params.LogScale) + math.Log2(minRel*0.7)
-	epsUnit := math.Ldexp(float64(params.N()), 12) * math.Exp2(-logDeltaMin)
-	tol := epsUnit * (1 + S)
-
-	bad, first, worst := 0, "", 0.0
-	for i := 0; i < slots; i++ {
-		want := bcNew(0, 0)
-		if o := owner(i); o >= 0 {
-			want = refEval(c.Cheb, refCoeffs[o], mapped[i])
+	// depth / scale / value contract of one evaluation; returns (passed, error)
+	verify := func(out *rlwe.Ciphertext, refCoeffs [][]bc, degree int, target rlwe.Scale, tol float64, parity, stage string) (bool, error) {
+		depth := advertisedDepth(degree)
+		if want := c.Level - depth*lcpr; out.Level() != want {
+			return false, h.Failf("C13:ckks:level"+stage, "degree %d: input level %d, output level %d, want %d", degree, c.Level, out.Level(), want)
 		}
-		g := bc{new(big.Float).SetPrec(refPrec).Set(got[i][0]), new(big.Float).SetPrec(refPrec).Set(got[i][1])}
-		if c.Params.CI {
-			want.im = bf(0)
-		}
-		e := g.sub(want).abs()
-		lim := tol + math.Ldexp(1+want.abs(), -45)
-		if lcpr == 2 {
-			lim = tol + math.Ldexp(1+want.abs(), -int(params.EncodingPrecision())+10)
-		}
-		if e/lim > worst {
-			worst = e / lim
-		}
-		if !(e <= lim) {
-			if bad == 0 {
-				wr, _ := want.re.Float64()
-				wi, _ := want.im.Float64()
-				gr, _ := g.re.Float64()
-				gi, _ := g.im.Float64()
-				first = fmt.Sprintf("slot %d (poly %d): x=%v got (%g,%g) want (%g,%g) err 2^%.1f tol 2^%.1f", i, owner(i), raw[i], gr, gi, wr, wi, math.Log2(e), math.Log2(lim))
+		if out.Scale.Cmp(target) == 0 {
+			rec.Class("scale-exact")
+		} else {
+			rec.Class("scale-within-2^-100")
+			if out.Scale.Log2Delta(target) < 100 {
+				return false, h.Failf("C13:ckks:scale"+stage, "output scale %v != target scale %v", &out.Scale.Value, &target.Value)
 			}
-			bad++
 		}
-	}
-	rec.Note("err/tol", worst)
-	switch {
-	case worst > 1.0/16:
-		rec.Class("err/tol>2^-4")
-	case worst > 1.0/256:
-		rec.Class("err/tol>2^-8")
-	default:
-		rec.Class("err/tol<=2^-8")
-	}
-	if bad != 0 {
-		par := c.Shapes[0].Parity
-		key := valueKey(mode, c.Kind, c.Lazy, c.MixedParity, par, c.Degree)
-		msg := fmt.Sprintf("%d/%d slots wrong (degree %d, level %d, cheb %v); %s", bad, slots, c.Degree, c.Level, c.Cheb, first)
-		if rec.Known(key, msg) {
-			rec.Class("known=" + key)
-			return nil
+		if out.Degree() != 1 {
+			return false, h.Failf("C13:ckks:degree"+stage, "output ciphertext degree %d", out.Degree())
 		}
-		return h.Failf(key, "%s", msg)
+		if out.LogDimensions != ct.LogDimensions {
+			return false, h.Failf("C13:ckks:logdimensions"+stage, "output LogDimensions %v, input %v", out.LogDimensions, ct.LogDimensions)
+		}
+		got := make([]*bignum.Complex, slots)
+		for i := range got {
+			got[i] = bignum.NewComplex()
+		}
+		if err := ecd.Decode(dec.DecryptNew(out), got); err != nil {
+			return false, h.Failf("C13:ckks:decode", "%v", err)
+		}
+		bad, first, worst := 0, "", 0.0
+		for i := 0; i < slots; i++ {
+			want := bcNew(0, 0)
+			if o := owner(i); o >= 0 {
+				want = refEval(c.Cheb, refCoeffs[o], mapped[i])
+			}
+			g := bc{new(big.Float).SetPrec(refPrec).Set(got[i][0]), new(big.Float).SetPrec(refPrec).Set(got[i][1])}
+			if c.Params.CI {
+				want.im = bf(0)
+			}
+			e := g.sub(want).abs()
+			lim := tol + math.Ldexp(1+want.abs(), -45)
+			if lcpr == 2 {
+				lim = tol + math.Ldexp(1+want.abs(), -int(params.EncodingPrecision())+10)
+			}
+			if e/lim > worst {
+				worst = e / lim
+			}
+			if !(e <= lim) {
+				if bad == 0 {
+					wr, _ := want.re.Float64()
+					wi, _ := want.im.Float64()
+					gr, _ := g.re.Float64()
+					gi, _ := g.im.Float64()
+					first = fmt.Sprintf("slot %d (poly %d): x=%v got (%g,%g) want (%g,%g) err 2^%.1f tol 2^%.1f", i, owner(i), raw[i], gr, gi, wr, wi, math.Log2(e), math.Log2(lim))
+				}
+				bad++
+			}
+		}
+		if stage == "" {
+			rec.Note("err/tol", worst)
+			switch {
+			case worst > 1.0/16:
+				rec.Class("err/tol>2^-4")
+			case worst > 1.0/256:
+				rec.Class("err/tol>2^-8")
+			default:
+				rec.Class("err/tol<=2^-8")
+			}
+		}
+		if bad != 0 {
+			key := valueKey(mode, c.Kind, c.Lazy, c.MixedParity, parity, degree) + stage
+			if c.Sparse {
+				key += ":sparse"
+			}
+			msg := fmt.Sprintf("%d/%d slots wrong (degree %d, level %d, cheb %v); %s", bad, slots, degree, c.Level, c.Cheb, first)
+			if rec.Known(key, msg) {
+				rec.Class("known=" + key)
+				return false, nil
+			}
+			return false, h.Failf(key, "%s", msg)
+		}
+		return true, nil
+	}
+	tol := tolFor(S, c.TargetRel)
+	if ok, err := verify(out, refCoeffs, c.Degree, target, tol, c.Shapes[0].Parity, ""); !ok {
+		return err
+	}
+	if hh := ctHash(ct); hh != ctBefore {
+		return failInput(mode, "first", ctBefore, hh)
+	}
+
+	// second polynomial from the same evaluator and the same input object (history: the CoefficientGetter buffer, the
+	// evaluator buffers and - from a PowerBasis - the powers generated for the first polynomial)
+	if c.Degree2 > 0 {
+		rec.Class("second-polynomial")
+		polys2, ref2, S2 := mkPolys(c.Coeffs2, false)
+		pol2, _, err := mkPol(polys2)
+		if err != nil {
+			return err
+		}
+		target2 := rlwe.NewScale(new(big.Float).SetPrec(128).Mul(&defScale.Value, big.NewFloat(c.Target2Rel)))
+		var out2 *rlwe.Ciphertext
+		if c.FromPB {
+			rec.Class("powerbasis-reused")
+			out2, err, pmsg = guarded(func() (*rlwe.Ciphertext, error) { return polyEval.EvaluateFromPowerBasis(pb, pol2, target2) })
+		} else {
+			out2, err, pmsg = guarded(func() (*rlwe.Ciphertext, error) { return polyEval.Evaluate(ct, pol2, target2) })
+		}
+		if err != nil || pmsg != "" {
+			return h.Failf("C13:ckks:Evaluate:error:second-use", "second polynomial of degree %d (first %d) at level %d, fromPB %v, lazy %v: %v %s", c.Degree2, c.Degree, c.Level, c.FromPB, c.Lazy, err, pmsg)
+		}
+		if ok, err := verify(out2, ref2, c.Degree2, target2, tolFor(S2, c.Target2Rel), "general", ":second-use"); !ok {
+			return err
+		}
+		if hh := ctHash(ct); hh != ctBefore {
+			return failInput(mode, "second", ctBefore, hh)
+		}
+		// the first result must not have been touched by the second evaluation
+		if ok, err := verify(out, refCoeffs, c.Degree, target, tol, c.Shapes[0].Parity, ":first-result-after-second-use"); !ok {
+			return err
+		}
 	}
 
 	// non-trivial rule of the property
@@ -669,7 +750,7 @@ func runCKKS(c CKKSCase, rec *h.Rec) error {
 			shapes[i] = s.class()
 		}
 		rec.NonTrivial(fmt.Sprintf("ckks|cplx=%v|ci=%v|prec=%d|cheb=%v|%s|deg=%d|lvl-min=%d|n=%d|%s|pb=%v%v|lazy=%v|scales=%v,%v,%v|%s", cplx, c.Params.CI, 64*lcpr, c.Cheb, c.Kind, c.Degree, c.Level-minLevel, npoly,
-			strings.Join(shapes, ","), c.FromPB, len(c.PBPowers), c.Lazy, c.InScaleRel != 1, c.TargetRel != 1, c.TargetIsIn, c.ValPattern))
+			strings.Join(shapes, ","), c.FromPB, len(c.PBPowers), c.Lazy, c.InScaleRel != 1, c.TargetRel != 1, c.TargetIsIn, c.ValPattern) + fmt.Sprintf("|second=%d|sparse=%v", advertisedDepth(c.Degree2), c.Sparse))
 	}
 	return nil
 }
